@@ -309,20 +309,24 @@ TDueTouch == IsEvent("DueTouch") /\ phase = "due"
     /\ UNCHANGED <<exists, gone, parent, hasp, ent, cstate, iss, sus, rc, rcv, req, routes, pub,
                    pubknown, pst, rst, kst>>
     /\ Projected(Line.abs)
-\* A maintenance run under a margin that makes only some key sets due: a CA
-\* with a key set (current, staging or old) whose manifest is within the
-\* margin of its next update re-issues the manifests and CRLs of ALL its key
-\* sets; the other CAs do nothing.  (Line.margin is in seconds; the times
-\* are the ones decoded from the published manifests.)
+\* A maintenance run under a margin that makes only some key sets due: a
+\* resource class with a key set (current, staging or old) whose manifest is
+\* within the margin of its next update re-issues the manifests and CRLs of
+\* ALL its key sets; the other classes -- of the same CA or of others -- do
+\* nothing (publishing.rs CaObjects::re_issue decides per class; the CA's
+\* publication follows if any of its classes re-issued).  (Line.margin is in
+\* seconds; the times are the ones decoded from the published manifests;
+\* .slot is the class the key belongs to.)
+SlotOfKey(r) == IF "slot" \in DOMAIN r THEN r.slot ELSE r.ca
 DueCAs(K, now, margin) ==
-    {K[k].ca : k \in {j \in DOMAIN K : K[j].ca \in AllCA /\ K[j].mft_next < now + margin}}
+    {SlotOfKey(K[k]) : k \in {j \in DOMAIN K : K[j].ca \in AllCA /\ K[j].mft_next < now + margin}}
 TRepublishByMargin == IsEvent("RepublishByMargin") /\ Ok
     /\ RepublishFor(DueCAs(keys, Line.abs.now, Line.margin)) /\ Projected(Line.abs)
 TExpectByMargin == IsEvent("ExpectByMargin") /\ UNCHANGED vars /\ Projected(Line.abs)
     /\ DOMAIN mark = DOMAIN Line.abs.keys
     /\ LET due == DueCAs(mark, Line.abs.now, Line.margin) IN
        \A k \in DOMAIN mark :
-          IF mark[k].ca \in due
+          IF SlotOfKey(mark[k]) \in due
           THEN /\ Line.abs.keys[k].mft = mark[k].mft + 1
                /\ Line.abs.keys[k].crl = mark[k].crl + 1
                /\ Line.abs.keys[k].objs = mark[k].objs
@@ -334,7 +338,7 @@ TExpectByMargin == IsEvent("ExpectByMargin") /\ UNCHANGED vars /\ Projected(Line
 \* CAs' own object stores (also while a roll is under way: the old key's set
 \* is re-issued with the others).  Due-ness is that of the stored sets.
 StoreDueCAs(K, now, margin) ==
-    {K[k].ca : k \in {j \in DOMAIN K : K[j].ca \in AllCA /\ K[j].store >= 0
+    {SlotOfKey(K[k]) : k \in {j \in DOMAIN K : K[j].ca \in AllCA /\ K[j].store >= 0
                                        /\ K[j].store_next < now + margin}}
 TRepublishByStoreMargin == IsEvent("RepublishByStoreMargin") /\ Ok
     /\ RepublishFor(StoreDueCAs(keys, Line.abs.now, Line.margin)) /\ Projected(Line.abs)
@@ -342,7 +346,7 @@ TExpectStoreByMargin == IsEvent("ExpectStoreByMargin") /\ UNCHANGED vars /\ Proj
     /\ DOMAIN mark = DOMAIN Line.abs.keys
     /\ LET due == StoreDueCAs(mark, Line.abs.now, Line.margin) IN
        \A k \in DOMAIN mark : mark[k].store >= 0 =>
-          IF mark[k].ca \in due
+          IF SlotOfKey(mark[k]) \in due
           THEN /\ Line.abs.keys[k].store = mark[k].store + 1
                /\ Line.abs.keys[k].store_next >= Line.abs.now + Line.margin
           ELSE /\ Line.abs.keys[k].store = mark[k].store
